@@ -83,6 +83,9 @@ func check(d *desc, obs *ss.Obs) error {
 			}
 			for ri, r := range po.RRes {
 				if !r.OK {
+					if st.SoftFail && ri == len(st.ROps)-1 && st.ROps[ri].Op == "end" {
+						continue // the scripted, expected refusal of EndMessageRead on an unconsumed message
+					}
 					return fmt.Errorf("step %d: receive op %d failed after hand-off history: %s", i, ri, r.Err)
 				}
 			}
@@ -273,6 +276,27 @@ func gen(c *core.Ctx) error {
 			}
 		}
 	}
+	// 1b. long-lived sessions: hand-offs while a frame counter crosses 2^31 or sits near 2^32
+	for _, start := range []uint32{0x7ffffffd, 0x7fffffff, 0x80000000, 0xfffffff0} {
+		for _, dirA := range []bool{true, false} {
+			su := ss.Setup{Kind: "blobs", Key: key, CtrAB: start, FinAB: true, CtrBA: 3, FinBA: true}
+			if !dirA {
+				su = ss.Setup{Kind: "blobs", Key: key, CtrBA: start, FinBA: true, CtrAB: 5, FinAB: true}
+			}
+			var steps []ss.Step
+			var exp []int
+			add := func(s ss.Step, e int) { steps = append(steps, s); exp = append(exp, e) }
+			for i := 0; i < 3; i++ {
+				add(ho(true), 1)
+				add(phase(dirA, apis[i%3], direct(i, 2+i)), -1)
+				add(ho(false), 1)
+				add(phase(!dirA, apis[(i+1)%3], direct(i+3, 1)), -1)
+				add(phase(dirA, "complete", direct(i, 1), direct(i, 0)), -1)
+			}
+			try(&desc{Case: ss.Case{Setup: su, Steps: steps}, Expect: exp, Note: fmt.Sprintf("hand-offs with counter from %#x", start)})
+			c.Count("high-counter-handoff")
+		}
+	}
 	// 2. unsafe points: export must be refused, and the session must continue untouched
 	type unsafe struct {
 		note  string
@@ -295,6 +319,10 @@ func gen(c *core.Ctx) error {
 			[]ss.Step{{Kind: "phase", ASends: true, ROps: []ss.ROp{{Op: "read", N: 4}, {Op: "end"}}}}},
 		{"inbound message started, nothing consumed", keyed, append(append([]ss.Step{}, both...), ss.Step{Kind: "phase", ASends: true, SOps: direct(3, 6).SOps(), ROps: []ss.ROp{{Op: "start"}}}), false,
 			[]ss.Step{{Kind: "phase", ASends: true, ROps: []ss.ROp{{Op: "read", N: 6}, {Op: "end"}}}}},
+		{"inbound message partially consumed, EndMessageRead tried and rejected", keyed, append(append([]ss.Step{}, both...), ss.Step{Kind: "phase", ASends: true, SOps: direct(3, 6).SOps(), ROps: []ss.ROp{{Op: "start"}, {Op: "read", N: 2}, {Op: "end"}}, SoftFail: true}), false,
+			[]ss.Step{{Kind: "phase", ASends: true, ROps: []ss.ROp{{Op: "read", N: 7}, {Op: "end"}}}, both[0], both[1]}},
+		{"inbound message started, EndMessageRead tried at once and rejected", keyed0, append(append([]ss.Step{}, both...), ss.Step{Kind: "phase", ASends: true, SOps: direct(5, 5).SOps(), ROps: []ss.ROp{{Op: "start"}, {Op: "end"}}, SoftFail: true}), false,
+			[]ss.Step{{Kind: "phase", ASends: true, ROps: []ss.ROp{{Op: "read", N: 5}, {Op: "end"}}}, both[1]}},
 		{"encryption switched off", keyed, append(append([]ss.Step{}, both...), ss.Step{Kind: "crypto", WhoA: true, On: false}), true,
 			[]ss.Step{{Kind: "crypto", WhoA: true, On: true}, both[0]}},
 		{"stream never keyed", ss.Setup{Kind: "plain"}, both, true, both},
